@@ -112,6 +112,18 @@ Theorem c22_no_complete_orphan_after_submit :
 Proof. exact no_complete_orphan_preserved. Qed.
 Print Assumptions c22_no_complete_orphan_after_submit.
 
+(* ... and the submitted transaction itself is never left as an orphan with all
+   its parents available *)
+Theorem c22_submitted_not_a_complete_orphan :
+  forall ordP ordE, (forall o l, Permutation (ordP o l) l) ->
+  forall U w now t w' r,
+    wf_univ U -> pool_inv U w -> In t U ->
+    step ordP ordE w (OSubmit now t) = Some (w', r) ->
+    forall e, lookup (orphans (wst w')) (tid t) = Some e ->
+      ~ complete (wchain w') (wst w') (otx e).
+Proof. exact submitted_not_complete_orphan. Qed.
+Print Assumptions c22_submitted_not_a_complete_orphan.
+
 (* processOrphans' work list always terminates within the fuel the model gives
    it: [run] never returns None, so the premise "run ... = Some w" is always met *)
 Theorem c22_run_total :
